@@ -34,11 +34,11 @@ MODES = ("auto", "dot", "slash")
 ALPHABET = ". / \\ [ ] ( ) ' \" & * = ! < > ~ ^ $ % + - , :".split(" ") + [" ", "a", "b", "1"]
 assert len(ALPHABET) == 27, len(ALPHABET)
 # non-ASCII characters with no case mapping, no digit value, not whitespace
-UNI = ["ß", "日", "\U0001F600", "·", "→", "Ж"]
+UNI = ["ß", "日", "\U0001F600", "·", "→", "Ж", "²", "①", "¹⁰"]
 TOKENS = ALPHABET + ["has_child(", "name()", "parent(", "max(", "min(", "unique(", "distinct(",
                      "=~", "!=", ">=", "<=", "==", "**", "&a", "[&a]", "['", "']", '["', '"]',
                      "\\.", "\\/", "\\[", "\\]", "\\ ", "\\\\", "/x/", "|x|", "[0]", "[1:2]", "[-1]",
-                     "[a=b]", "(a)", ")+(", ")-(", ")&(", "abc", "_", "0", "9", "\t", "\n", "x*y", "*x", "x*"]
+                     "[a=b]", "[²]", "[-①]", "(a)", ")+(", ")-(", ")&(", "abc", "_", "0", "9", "\t", "\n", "x*y", "*x", "x*"]
 
 
 def requests(s):
